@@ -220,37 +220,60 @@ func loadDeb2(archive map[string]*ArEntry) (*Deb, error) {
 
 // }}}
 
+// Find the one member with a given name prefix {{{
+
+// Return the member whose name starts with the given prefix ("control." or
+// "data."), or nil if there is none. A .deb holds exactly one of each; if
+// there are several, which one is meant would depend on the iteration order
+// of the map, so this is an error.
+func findMember(archive map[string]*ArEntry, prefix string) (*ArEntry, error) {
+	var found *ArEntry
+	for _, member := range archive {
+		if strings.HasPrefix(member.Name, prefix) {
+			if found != nil {
+				return nil, fmt.Errorf("Archive contains more than one '%s*' member", prefix)
+			}
+			found = member
+		}
+	}
+	return found, nil
+}
+
+// }}}
+
 // Decode .deb 2.0 control data into the struct {{{
 
 // Load a Debian 2.x series .deb control file and write it out to
 // the deb.Deb.Control member.
 func loadDeb2Control(archive map[string]*ArEntry, deb *Deb) error {
-	for _, member := range archive {
-		if strings.HasPrefix(member.Name, "control.") {
-			archive, closer, err := member.Tarfile()
-			if err != nil {
-				return err
-			}
-			deb.ControlExt = member.Name[8:len(member.Name)]
-			for {
-				member, err := archive.Next()
-				if err != nil {
-					closer.Close()
-					return err
-				}
-				if path.Clean(member.Name) == "control" {
-					err1 := control.Unmarshal(&deb.Control, archive)
-					err2 := closer.Close()
-					if err1 != nil {
-						return err1
-					}
-					return err2
-				}
-			}
+	member, err := findMember(archive, "control.")
+	if err != nil {
+		return err
+	}
+	if member == nil {
+		return fmt.Errorf("Missing or out of order .deb member 'control'")
+	}
+
+	tarfile, closer, err := member.Tarfile()
+	if err != nil {
+		return err
+	}
+	deb.ControlExt = member.Name[8:len(member.Name)]
+	for {
+		member, err := tarfile.Next()
+		if err != nil {
 			closer.Close()
+			return err
+		}
+		if path.Clean(member.Name) == "control" {
+			err1 := control.Unmarshal(&deb.Control, tarfile)
+			err2 := closer.Close()
+			if err1 != nil {
+				return err1
+			}
+			return err2
 		}
 	}
-	return fmt.Errorf("Missing or out of order .deb member 'control'")
 }
 
 // }}}
@@ -260,19 +283,22 @@ func loadDeb2Control(archive map[string]*ArEntry, deb *Deb) error {
 // Load a Debian 2.x series .deb data file and write it out to
 // the deb.Deb.Data member.
 func loadDeb2Data(archive map[string]*ArEntry, deb *Deb) error {
-	for _, member := range archive {
-		if strings.HasPrefix(member.Name, "data.") {
-			archive, closer, err := member.Tarfile()
-			if err != nil {
-				return err
-			}
-			deb.DataExt = member.Name[5:len(member.Name)]
-			deb.Data = archive
-			deb.Closer = closer
-			return nil
-		}
+	member, err := findMember(archive, "data.")
+	if err != nil {
+		return err
 	}
-	return fmt.Errorf("Missing or out of order .deb member 'data'")
+	if member == nil {
+		return fmt.Errorf("Missing or out of order .deb member 'data'")
+	}
+
+	tarfile, closer, err := member.Tarfile()
+	if err != nil {
+		return err
+	}
+	deb.DataExt = member.Name[5:len(member.Name)]
+	deb.Data = tarfile
+	deb.Closer = closer
+	return nil
 }
 
 // }}}
